@@ -43,6 +43,14 @@ fn main_strategy() -> proptest::strategy::BoxedStrategy<DCase> {
         .boxed()
 }
 
+/// File names from the hostile class (blanks, quotes, control characters, bytes that are not valid UTF-8):
+/// keep/drop patterns on *paths* must treat such names like any other.
+fn hostile_strategy() -> proptest::strategy::BoxedStrategy<DCase> {
+    let mut sp = profile();
+    sp.names = Names::Hostile;
+    dcase_strategy(sp)
+}
+
 /// Large groups: 24-48 files, nearly all with the same content, so that one group has more than 20
 /// sub-groups (sorting algorithms switch strategy at about that size) with many tied keys.
 fn big_strategy() -> proptest::strategy::BoxedStrategy<DCase> {
@@ -357,10 +365,11 @@ pub fn check(tier: Tier) -> i32 {
     replay_corpus::<DCase, _>(&ctx, run_case);
     drive(&ctx, "main", tier.pick(6000, 60000), main_strategy, run_case);
     drive(&ctx, "big-groups", tier.pick(800, 6000), big_strategy, run_case);
+    drive(&ctx, "hostile-names", tier.pick(1500, 12000), hostile_strategy, run_case);
     cleanup_process_scratch();
     ctx.finish(
         "exploration",
-        "proptest-generated groups of tiny files (names with regex metacharacters and non-ASCII text, hard-link subsets, 1-3 roots, nesting 0-2) with frequently tied mtimes/atimes set by the harness after `group` (ctime/btime read back with stat); dedupe options: --priority lists of length 0-3 over all 12 values, keep/drop globs built from actual names and directories, n in 1..3 explicit or inherited from `group --rf-over`, --isolate / -H explicit or inherited through the report header (text and JSON), one report in six from `group --transform 'head -c 3'` (members of different sizes, size check switched off by the header); every other dedupe command is started in a directory other than the one `group` ran in. A second generator produces groups of 20-48 replicas (more than 20 sub-groups, many tied keys). Oracle: reference keep/drop rule (sub-groups: isolate roots in order, file id, singletons; stable sorts from the last priority to the first; forced retention by patterns; top-up to n from the front) vs the set of files a real run changed; separate clauses for keep patterns, drop patterns and sub-group atomicity. Non-trivial = >=2 droppable sub-groups in some group AND (chained priorities with a tie in the first key OR a keep pattern hitting a multi-path sub-group OR a setting inherited from the header).",
+        "proptest-generated groups of tiny files (names with regex metacharacters and non-ASCII text, hard-link subsets, 1-3 roots, nesting 0-2) with frequently tied mtimes/atimes set by the harness after `group` (ctime/btime read back with stat); dedupe options: --priority lists of length 0-3 over all 12 values, keep/drop globs built from actual names and directories, n in 1..3 explicit or inherited from `group --rf-over`, --isolate / -H explicit or inherited through the report header (text and JSON), one report in six from `group --transform 'head -c 3'` (members of different sizes, size check switched off by the header); every other dedupe command is started in a directory other than the one `group` ran in. A third generator uses hostile file names (blanks, quotes, control characters, invalid UTF-8). A second generator produces groups of 20-48 replicas (more than 20 sub-groups, many tied keys). Oracle: reference keep/drop rule (sub-groups: isolate roots in order, file id, singletons; stable sorts from the last priority to the first; forced retention by patterns; top-up to n from the front) vs the set of files a real run changed; separate clauses for keep patterns, drop patterns and sub-group atomicity. Non-trivial = >=2 droppable sub-groups in some group AND (chained priorities with a tie in the first key OR a keep pattern hitting a multi-path sub-group OR a setting inherited from the header).",
         &["how a time/nesting priority ranks a sub-group whose members differ in that key is undocumented: such cases skip the exact comparison (counted)", "glob semantics per the reference matcher (README Path Globbing)"],
     )
 }
